@@ -86,3 +86,51 @@ class SymMap:
         return "<symmap>"
 
     __repr__ = __str__ = lambda self: "<symmap>"
+
+
+class SymSet:
+    """set() replacement whose membership tests are decided by the solver and whose iteration order can be chosen by it
+    (models hash-seed dependent order).  Elements are kept in insertion order."""
+    order_chooser = None     # callable(n) -> permutation of range(n), or None for insertion order
+
+    def __init__(self, iterable=()):
+        self.items = []
+        for x in iterable:
+            self.add(x)
+
+    def add(self, x):
+        for y in self.items:
+            if y == x:
+                return
+        self.items.append(x)
+
+    def __contains__(self, x):
+        for y in self.items:
+            if y == x:
+                return True
+        return False
+
+    def __or__(self, other):
+        r = SymSet(self.items)
+        for x in other:
+            r.add(x)
+        return r
+
+    __ror__ = __or__
+
+    def __iter__(self):
+        n = len(self.items)
+        ch = SymSet.order_chooser
+        if ch is None or n < 2:
+            return iter(list(self.items))
+        perm = ch(n)
+        return iter([self.items[i] for i in perm])
+
+    def __len__(self):
+        return len(self.items)
+
+    def discard(self, x):
+        self.items = [y for y in self.items if not (y == x)]
+
+    def __repr__(self):
+        return "<symset %d>" % len(self.items)
